@@ -1,5 +1,7 @@
 #[macro_use]
 pub mod vectorization;
+#[cfg(all(brotli_verif, feature = "std"))]
+pub mod verif_sync;
 pub mod backward_references;
 pub mod bit_cost;
 pub mod block_split;
